@@ -148,7 +148,8 @@ partial def runModel (rw : Bool) (v : Buf.View) (st : MSt) : MSt :=
     match Buf.iter st.root v with
     | .ok r => runModel rw v (st.emit rest ("it:" ++ joinNat r))
     | .panic m => st.halt m
-  | "dims" :: rest =>
+  | "dims" :: rest | "dbg" :: rest =>
+    -- `dbg`: the harness smoke-tests `Debug` and then prints what `dims` prints
     let c := if Buf.isContiguous v then 1 else 0
     let e := if Buf.isEmpty v then 1 else 0
     runModel rw v (st.emit rest s!"d:{v.w},{v.h},{v.stride},{c},{e}")
@@ -186,6 +187,14 @@ partial def runModel (rw : Bool) (v : Buf.View) (st : MSt) : MSt :=
         | .ok r => runModel rw v (st.emitRoot rest "ok" r)
         | .panic m => st.halt m
       | _ => st.broken "set"
+    | "dmut" =>
+      -- `Buf2::data_mut()[i] = a`: the view is the owned root (`off = 0`, `len = |root|`)
+      match nats 2 rest with
+      | some ([i, a], rest) =>
+        match Buf.dataSet st.root v i a with
+        | .ok r => runModel rw v (st.emitRoot rest "ok" r)
+        | .panic m => st.halt m
+      | _ => st.broken "dmut"
     | "gset" =>
       match nats 3 rest with
       | some ([x, y, a], rest) =>
@@ -457,7 +466,17 @@ partial def runSpec (rw : Bool) (p : Win) (pitch : Nat) (st : SSt) : SSt :=
           if tok == "it:" ++ joinNat want.flatten then runSpec rw p pitch (next rest st.g)
           else st.failWith "read-mismatch" s!"iter(): implementation {tok}"
         | none => st.failWith "spec-window-outside-storage" "iter"
-      | "dims" =>
+      | "dmut" =>
+        match nats 2 rest with
+        | some ([i, a], rest) =>
+          let pw := max pitch 1
+          if i < (toFlat st.g).length then
+            if tok == "ok" then runSpec rw p pitch (next rest (setCell st.g (i % pw) (i / pw) a))
+            else st.failWith "inbounds-panic" s!"data_mut()[{i}] gave {tok}"
+          else if isPanic tok then legit
+          else st.failWith "oob-accepted" s!"data_mut()[{i}] beyond the storage gave {tok}"
+        | _ => st.halt
+      | "dims" | "dbg" =>
         match ((tok.drop 2).toString.splitOn ",").map String.toNat? with
         | [some w, some h, some s, some _c, some e] =>
           let wantE := if p.w == 0 || p.h == 0 then 1 else 0
